@@ -73,4 +73,5 @@ def main(tier):
     chk.run("R-REFHEAD", RR.refhead, cx.repo, floor=1)
     chk.run("R-ATTRBACKEND", V.attrbackend, cx.repo, floor=6)
     chk.run("R-LEAFCHECK", SY.leafcheck, cx.repo, floor=2)
+    chk.run("R-INTDIGITS", P.intdigits, cx.repo, floor=1)
     return chk.finish()
